@@ -334,6 +334,45 @@ func ruleNG2(c *Ctx) {
 	})
 }
 
+// ruleNG2b: Accept and NonGreedy of a DFA state are only ever OR-accumulated (monotone): a later
+// assignment that clears the mark loses it for every rule combined into the state.
+func ruleNG2b(c *Ctx) {
+	const rule = "NG-2"
+	p := c.Prog
+	n := 0
+	p.ProdFiles(func(pk *packages.Package, f *ast.File) {
+		info := pk.TypesInfo
+		for _, d := range f.Decls {
+			fd, ok := d.(*ast.FuncDecl)
+			if !ok || fd.Body == nil {
+				continue
+			}
+			ast.Inspect(fd.Body, func(m ast.Node) bool {
+				as, ok := m.(*ast.AssignStmt)
+				if !ok || len(as.Lhs) != 1 {
+					return true
+				}
+				for _, fld := range []string{"NonGreedy", "Accept"} {
+					if !isField(info, as.Lhs[0], "lexergen/dfa", "State", fld) {
+						continue
+					}
+					n++
+					mono := false
+					if be, ok := ast.Unparen(as.Rhs[0]).(*ast.BinaryExpr); ok && be.Op == token.LOR && (sameExpr(be.X, as.Lhs[0]) || sameExpr(be.Y, as.Lhs[0])) {
+						mono = true
+					}
+					if !mono {
+						c.bad(rule, fmt.Sprintf("%s/write(State.%s)", funcKey(pk, fd), fld), p.Pos(as.Pos()),
+							"`%s`: a DFA state's %s is overwritten instead of OR-accumulated from its constituent NFA states; the mark of a rule combined into the state can be lost", nodeText(as), fld)
+					}
+				}
+				return true
+			})
+		}
+	})
+	c.ok(rule, "dfa.State/monotone-marks", "", "%d writes of dfa.State.Accept/NonGreedy: all of the form x = x || y", n)
+}
+
 func ruleNG3(c *Ctx) {
 	const rule = "NG-3"
 	ta := c.tmplOrUnres(rule)
